@@ -1123,7 +1123,7 @@ func ruleCreateIsCreate(c *Ctx, rule string) {
 				if !isBasic || b.Info()&(types.IsBoolean|types.IsInteger) == 0 {
 					continue
 				}
-				if _, isConst := a.(*ssa.Const); !isConst {
+				if !constComputable(a, 0) {
 					bad = describeValue(a)
 				}
 			}
@@ -1145,7 +1145,7 @@ func ruleCreateIsCreate(c *Ctx, rule string) {
 					continue
 				}
 				n++
-				_, isConst := st.Val.(*ssa.Const)
+				isConst := constComputable(st.Val, 0)
 				c.Check(isConst, rule, FnName(fn)+": "+f.Name()+" of the persist context", p.Pos(st.Pos()), "create-or-not handed to the entity strategy is a constant of the entry point", "create-or-not handed to the entity strategy is computed ("+describeValue(st.Val)+"): an update can run the strategy's create path, which writes the fields that are fixed at creation (isSystem)")
 			}
 		}
@@ -1518,4 +1518,32 @@ func ruleSubQueryWhole(c *Ctx, rule string) {
 	}
 	c.CallSites(n)
 	c.Floor(rule, 2)
+}
+
+// constComputable: the value is a constant, or computed from constants alone (op == indexNewRow with op a
+// constant argument of an expanded helper).
+func constComputable(v ssa.Value, depth int) bool {
+	if depth > 4 {
+		return false
+	}
+	switch x := v.(type) {
+	case *ssa.Const:
+		return true
+	case *ssa.BinOp:
+		return constComputable(x.X, depth+1) && constComputable(x.Y, depth+1)
+	case *ssa.UnOp:
+		return x.Op != token.MUL && x.Op != token.ARROW && constComputable(x.X, depth+1)
+	case *ssa.Convert:
+		return constComputable(x.X, depth+1)
+	case *ssa.ChangeType:
+		return constComputable(x.X, depth+1)
+	case *ssa.Phi:
+		for _, e := range x.Edges {
+			if !constComputable(e, depth+1) {
+				return false
+			}
+		}
+		return len(x.Edges) > 0
+	}
+	return false
 }
